@@ -363,7 +363,7 @@ def _copy_helpers(ctx, rep):
             kinds.add("returned")
             s = [e for e in p.calls() if q.call_name(e) == "set_result" and q.recv(e) == p.value]
             rep.ob("R-EXC-ID", "SyncExecutor.submit: the callable's result is stored in the returned future", len(s) == 1 and s[0].d["args"] == (res,), "", where_of(sm), trace_of(p))
-    rep.require(kinds == {"raised", "returned"}, "SyncExecutor.submit: expected returning and raising callable paths")
+    rep.ob("R-EXC-ID", "SyncExecutor.submit: one call of the callable, whose result or exception becomes the future's outcome", kinds == {"raised", "returned"}, "paths found: %s" % sorted(kinds), where_of(sm))
 
 
 def _gate_only(callee, ev, path):
